@@ -93,6 +93,7 @@ def build(tier, seed):
         cases.append({'kind': 'msdat', 'reps': reps, 'first': 1, 'spacing': 1, 'dn': 3, 'L': 6})
         cases.append({'kind': 'gfms', 'reps': reps, 'first': 1, 'spacing': 1, 'prefix': 'rr'})
         cases.append({'kind': 'ms5', 'reps': reps})
+        cases.append({'kind': 'ms5', 'reps': reps, 'prefix': 'corrD'})
     cases.append({'kind': 'sort-names'})
     from checks import c17_sfcf
     cases += c17_sfcf.build(tier)
@@ -464,7 +465,7 @@ def run_gfms(pe, acc, case, d):
 # ----------------------------------------------------------------------------- ms5_xsf
 def run_ms5(pe, acc, case, d):
     reps = case['reps']
-    prefix = 'ensD'
+    prefix = case.get('prefix', 'ensD')
     tmax = 5
     cfgl = {1: list(range(1, 13)), 2: list(range(2, 26, 2)), 10: [3, 4, 7, 8, 9, 12, 13, 15, 16, 20]}
     for r in reps:
